@@ -542,6 +542,26 @@ func TestC14(t *testing.T) {
 			n := []int{65535, 65536, 65537, 70001}[shard%4]
 			kC14.One(ev, c14Case{D: gcsData{Key: HexBytes(bytes.Repeat([]byte{byte(shard + 1)}, 16)), P: uint8(19 + shard%4), M: 784931, N: n, Seed: uint32(seedEnv)}})
 		}
+		// the 128-bit product hash x N*M in its corners: N*M = 2^48-1 (low word all ones) with items whose hash has its
+		// top 16 bits set (found by search), so that every partial product is as large as it gets
+		{
+			var key [16]byte
+			for i := range key {
+				key[i] = byte(0x60 + shard + i)
+			}
+			var extra []HexBytes
+			for i := 0; i < 1<<19 && len(extra) < 6; i++ {
+				it := derivedItem(uint32(seedEnv)+4242, i)
+				if refSipHash(key, it)>>48 == 0xffff {
+					extra = append(extra, it)
+				}
+			}
+			for _, nm := range [][2]uint64{{255, 1<<40 + 1<<32 + 1<<24 + 1<<16 + 1<<8 + 1}, {65535, 1<<32 + 1<<16 + 1}, {15, (1<<48 - 1) / 15}} {
+				if int(nm[0]) > len(extra) {
+					kC14.One(ev, c14Case{D: gcsData{Key: HexBytes(key[:]), P: uint8(28 + shard%4), M: nm[1], N: int(nm[0]) - len(extra), Seed: uint32(seedEnv) + 7, Extra: extra}})
+				}
+			}
+		}
 		kC14.Run(t, ev, perShard(pick(1200, 40000)))
 		kC14Block.Run(t, ev, perShard(pick(1500, 500000)))
 		kC14Chain.Run(t, ev, perShard(pick(1500, 500000)))
